@@ -58,6 +58,8 @@ func main() {
 		selftest = flag.Bool("selftest", false, "run all witness mutants and benign variants")
 		explain  = flag.String("explain", "", "replay file to explain")
 		dump     = flag.String("dump", "", "print SSA of the named function")
+		genprot  = flag.Bool("genprotected", false, "print the list of functions of the tree (reference names never inlined)")
+		inl      = flag.Bool("inline", false, "with -dump/-list: use the helper-inlined program")
 		list     = flag.Bool("list", false, "list functions")
 		only     = flag.String("only", "", "selftest: only witnesses whose name contains this")
 	)
@@ -78,11 +80,17 @@ func main() {
 		os.Exit(explainReplay(*explain, *repo))
 	}
 
+	if *genprot {
+		os.Exit(genProtected(*repo))
+	}
 	if *dump != "" || *list {
-		w, err := Load(LoadConfig{Dir: *repo})
+		w, err := Load(LoadConfig{Dir: *repo, Inline: *inl})
 		if err != nil {
 			fmt.Fprintln(os.Stderr, err)
 			os.Exit(2)
+		}
+		if *inl {
+			fmt.Fprintln(os.Stderr, "inlined:", w.InlineDescr)
 		}
 		if *list {
 			for _, fn := range w.Funcs {
@@ -142,6 +150,26 @@ func main() {
 	}
 	r.Extra["analysed"] = analysed
 	runGuarded(p, w, r, "")
+	if r.failing() {
+		// fallback: the same rules on the program with new helpers inlined at source level (inline.go)
+		if wi, ierr := Load(LoadConfig{Dir: *repo, Inline: true}); ierr == nil {
+			ri := NewReport(p.ID, *tier, p.Level, known)
+			ri.Explanation, ri.Assumptions, ri.Trusted = r.Explanation, r.Assumptions, r.Trusted
+			ri.Extra["analysed"] = analysed
+			runGuarded(p, wi, ri, "")
+			if !ri.failing() {
+				ri.Note("the rules did not all recognise the program as written (%d failing obligation(s)); they were re-applied to a semantically equal program in which helpers that do not exist in the reference tree are inlined at source level (%s), and all hold there", r.countFailing(), wi.InlineDescr)
+				analysed["helpers_inlined"] = wi.InlineDescr
+				r, w = ri, wi
+			} else if os.Getenv("EVALSA_DEBUG") != "" {
+				for _, o := range ri.Obls {
+					if o.Verdict == Violated {
+						fmt.Fprintf(os.Stderr, "inlined run still fails: %s %s %s: %s -- %s\n", o.Rule, o.Pos, o.Func, o.What, o.Why)
+					}
+				}
+			}
+		}
+	}
 
 	if *tier == "thorough" {
 		configs := []LoadConfig{
